@@ -72,6 +72,17 @@ fn gen_string(r: &mut Rng, out: &mut Out) -> String {
     }
 }
 
+/// a conversion from a socket-address type never fails and never panics
+fn conv<T: ToRemoteAddr>(x: &T, what: &str, out: &mut Out) -> Option<RemoteAddr> {
+    match std::panic::catch_unwind(std::panic::AssertUnwindSafe(|| x.to_remote_addr())) {
+        Ok(Ok(v)) => Some(v),
+        Ok(Err(e)) => { out.violation(&format!("conversion from a socket-address value is not lossless: {}.to_remote_addr() = Err({})", what, e)); None }
+        Err(_) => { out.violation(&format!("conversion from a socket-address value panicked: {}.to_remote_addr()", what)); None }
+    }
+}
+trait PlainScope { fn scope_id_is_plain(&self) -> bool; }
+impl PlainScope for SocketAddr { fn scope_id_is_plain(&self) -> bool { match self { SocketAddr::V4(_) => true, SocketAddr::V6(v) => v.scope_id() == 0 && v.flowinfo() == 0 } } }
+
 pub fn run(a: &Args) {
     let mut out = Out::new(&a.out);
     let mut r = Rng::new(a.seed);
@@ -121,12 +132,15 @@ pub fn run(a: &Args) {
         }
         // conversions from socket-address types (lossless)
         if let Some(p) = parsed {
-            let via_sa = p.to_remote_addr().unwrap();
+            let Some(via_sa) = conv(&p, &format!("SocketAddr {}", p), &mut out) else { continue };
             let l2 = describe(&via_sa);
             let via_v = match p {
-                SocketAddr::V4(v) => v.to_remote_addr().unwrap(),
-                SocketAddr::V6(v) => v.to_remote_addr().unwrap(),
+                SocketAddr::V4(v) => conv(&v, &format!("SocketAddrV4 {}", v), &mut out),
+                SocketAddr::V6(v) => conv(&v, &format!("SocketAddrV6 {}", v), &mut out),
             };
+            let Some(via_v) = via_v else { continue };
+            let via_t = conv(&(p.ip(), p.port()), &format!("(IpAddr, u16) ({}, {})", p.ip(), p.port()), &mut out);
+            if p.scope_id_is_plain() && via_t != Some(RemoteAddr::Socket(SocketAddr::new(p.ip(), p.port()))) { out.violation(&format!("(IpAddr, u16) conversion not lossless for ({}, {}): {:?}", p.ip(), p.port(), via_t)); }
             let via_ra = via_sa.to_remote_addr().unwrap();
             if via_v != via_sa || via_ra != via_sa || via_sa != RemoteAddr::Socket(p) {
                 out.violation(&format!("socket-address conversion not lossless for {}: SocketAddr -> {:?}, V4/V6 -> {:?}, RemoteAddr -> {:?}", p, via_sa, via_v, via_ra));
@@ -144,11 +158,12 @@ pub fn run(a: &Args) {
     ];
     if a.replay.is_none() {
         for p in extra {
-            let via = p.to_remote_addr().unwrap();
+            let Some(via) = conv(&p, &format!("SocketAddr {}", p), &mut out) else { continue };
             let via_v = match p {
-                SocketAddr::V4(v) => v.to_remote_addr().unwrap(),
-                SocketAddr::V6(v) => v.to_remote_addr().unwrap(),
+                SocketAddr::V4(v) => conv(&v, &format!("SocketAddrV4 {}", v), &mut out),
+                SocketAddr::V6(v) => conv(&v, &format!("SocketAddrV6 {}", v), &mut out),
             };
+            let Some(via_v) = via_v else { continue };
             if via_v != RemoteAddr::Socket(p) {
                 out.violation(&format!("SocketAddrV4/V6 conversion not lossless for {:?}: {:?}", p, via_v));
             }
